@@ -346,3 +346,9 @@ func (si *StrideInfo) SpanOf(sl *ssa.Slice) (m, c int64, ok bool) {
 	}
 	return hi.M - lo.M, hi.C - lo.C, true
 }
+
+// LinOf is the exported form of linOf: v = base + m*stride + c.
+func (si *StrideInfo) LinOf(v ssa.Value) (base ssa.Value, m, c int64, ok bool) {
+	l := si.linOf(v, 0)
+	return l.Base, l.M, l.C, l.OK
+}
